@@ -230,6 +230,29 @@ impl EventGen for Container {
                     el.event_range = Some((start, start)); // emulate an Empty element
                 }
                 el.generate_events(context)
+            } else if is_shape && self.0.name != "text" && inner_text.is_none() {
+                // A shape with child elements (<title>, <animate>, ...): positioned, sized
+                // and given text as if it were empty, then written around its children.
+                let mut el = self.0.clone();
+                if let Some((start, _end)) = self.0.event_range {
+                    el.event_range = Some((start, start)); // emulate an Empty element
+                }
+                let (shape_events, bbox) = el.generate_events(context)?;
+                let (child_events, _) = process_events(inner_events, context)?;
+                let mut events = OutputList::new();
+                let mut children = Some(child_events);
+                for ev in shape_events.iter() {
+                    match (ev, &children) {
+                        (OutputEvent::Empty(e), Some(child_events)) if e.name == self.0.name => {
+                            events.push(OutputEvent::Start(e.clone()));
+                            events.extend(child_events);
+                            events.push(OutputEvent::End(e.name.clone()));
+                            children = None;
+                        }
+                        _ => events.push(ev.clone()),
+                    }
+                }
+                Ok((events, bbox))
             } else {
                 let mut new_el = self.0.clone();
                 // Special case <svg> elements with an xmlns attribute - passed through
